@@ -141,7 +141,7 @@ pub fn check_shape(mode: GameMode, pts: &[PathControlPoint], bufs: &mut CurveBuf
     let c = Curve::new(mode, pts, None, bufs);
     let path = path_p2(&c);
     let sl = slack(pts);
-    let mut viol = |class: &str, msg: String, acc: &mut Acc| {
+    let viol = |class: &str, msg: String, acc: &mut Acc| {
         acc.violation(Violation::new(
             class,
             format!("{mode:?} {}: {msg}", points_json(pts)),
